@@ -78,10 +78,47 @@ class G:
     def special_points(self):
         return [self.neutral, self.base, self.neg(self.base), self.dbl(self.base)]
 
+    def _try_decode(self, c, sign):
+        """group element whose encoded coordinate is the integer c (None if there is none)"""
+        return None
+
+    def structured_points(self):
+        """Elements whose encoded coordinate is 0 / q plus or minus one unit of some limb (2^(W*i) for the limb widths the
+        backends use): the carry propagation of iszero / equals / normalisation sees exactly these."""
+        if getattr(self, "_stp", None) is None:
+            out = []
+            p = getattr(self, "p", None)
+            if p is None:
+                self._stp = []
+                return self._stp
+            bits = p.bit_length()
+            seen = set()
+            for W in (51, 64, 32, 56, 28, 52):
+                for i in range(0, bits // W + 1):
+                    for d in (0, 1, -1):
+                        j = W * i + d
+                        if not (0 < j < bits):
+                            continue
+                        for c in ((1 << j), p - (1 << j), (1 - (1 << j)) % p, (1 << j) - 1, (1 << j) + 1):
+                            if c in seen or not (0 <= c < p):
+                                continue
+                            seen.add(c)
+                            for sign in (0, 1):
+                                try:
+                                    P = self._try_decode(c, sign)
+                                except Exception:
+                                    P = None
+                                if P is not None and not self.is_neutral(P):
+                                    out.append(P)
+            self._stp = out
+        return self._stp
+
     def rand_point(self, rng):
         t = rng.randrange(10)
         if t == 0:
             return rng.choice(self.special_points())
+        if rng.randrange(12) == 0 and self.structured_points():
+            return rng.choice(self.structured_points())
         return self.mulgen(self.rand_scalar(rng) if t < 3 else rng.randrange(self.n))
 
 
@@ -109,6 +146,10 @@ class EdG(G):
     def enc(self, P): return self.C.encode(P).hex()
     def desc(self, P): return "e" + self.enc(P)
 
+    def _try_decode(self, c, sign):
+        n = 32 if self.name == "ed25519" else 57
+        return self.C.decode((c | (sign << (8 * n - 1))).to_bytes(n, "little"))
+
     def special_points(self):
         B = self.base
         out = [self.neutral, B, self.neg(B), self.dbl(B)] + list(self.low)
@@ -119,6 +160,8 @@ class EdG(G):
         t = rng.randrange(10)
         if t == 0:
             return rng.choice(self.special_points())
+        if rng.randrange(12) == 0 and self.structured_points():
+            return rng.choice(self.structured_points())
         P = self.mulgen(rng.randrange(self.n) if t > 2 else self.rand_scalar(rng))
         if t in (1, 4, 5):
             P = self.add(P, rng.choice(self.low))   # mixed-order point
@@ -128,6 +171,9 @@ class EdG(G):
 class QuotG(G):
     """ristretto255 / decaf448: elements represented by edwards points."""
     has_vh = True
+
+    def _try_decode(self, c, sign):
+        return self.Q.decode(c.to_bytes(self.slen, "little"))
 
     def __init__(self, name, Q, C, p, tors_order):
         self.name = name
@@ -162,6 +208,9 @@ class QuotG(G):
 
 class WeierG(G):
     has_vh = True
+
+    def _try_decode(self, c, sign):
+        return self.C.lift_x(c, sign)
 
     def __init__(self, name, C):
         self.name = name
@@ -208,6 +257,9 @@ class WeierG(G):
 
 
 class DoG(G):
+    def _try_decode(self, c, sign):
+        return self.D.decode(c.to_bytes(32, "little"))
+
     def __init__(self, name, D):
         self.name = name
         self.D = D
